@@ -7,7 +7,7 @@ import re
 from .pymodel import Program
 from .cymodel import CyProgram, X, pp
 from .kernels import report_sites
-from .loopir import count_sites, resolve_role, py_stmts
+from .loopir import count_sites, resolve_role, py_stmts, quotients
 from .rules_c03 import m4
 from .report import Run, AnalysisError
 
@@ -41,31 +41,68 @@ def _canon(site, focal_hint=None):
             "domains": [doms[n] for n in order]}
 
 
-def _domain_class(dom, kind):
+def _size_group(name, binds, lists):
+    """'g1' / 'g2' when `name` is bound to len(<first / second node list>)."""
+    b = binds.get(name)
+    if b is None:
+        return None
+    t = pp(b).replace(" ", "")
+    for k, l in enumerate(lists[:2]):
+        if f"len({l})" in t:
+            return f"g{k + 1}"
+    return None
+
+
+def _domain_class(dom, site, binds, lists):
     """Classify a role's loop domain: 'g1' (all of group 1), 'g2' (all of group
-    2), 'g2<' (members of group 2 before the previous role)."""
+    2), 'g2<' (members of group 2 before the previous role), 'g2>' (after it).
+    Sizes are resolved through their bindings (len(<node list k>)), loop
+    variables through the loop nest: no name is assumed."""
     src, it = dom
     if it is None:
         return "?"
     it = it.replace(" ", "")
     m = re.fullmatch(r"range\((.*)\)", it)
-    if m:
-        it = "range(" + m.group(1).replace("(", "").replace(")", "") + ")"
-    if kind == "cy":
-        if it == "range(m)":
-            return "g1"
-        if it == "range(n)":
-            return "g2"
-        if re.fullmatch(r"range\([a-z]\)", it):
-            return "g2<"
-    else:
-        if it == "range(N1)":
-            return "g1"
-        if it == "range(N1,N1+N2)":
-            return "g2"
-        if re.fullmatch(r"range\(N1,\w+\)", it):
-            return "g2<"
-    return it
+    if not m:
+        return it
+    args = [a.replace("(", "").replace(")", "") for a in m.group(1).split(",")]
+    loopvars = {v for v, _ in site.loops}
+    g = [(_size_group(a, binds, lists) or
+          ("+".join(sorted(_size_group(x, binds, lists) or x for x in a.split("+")))
+           if "+" in a else None) or
+          ("var" if a in loopvars else
+           "var+1" if a.replace("+1", "") in loopvars and a.endswith("+1") else a))
+         for a in args]
+    if g == ["g1"]:
+        return "g1"
+    if g in (["g2"], ["g1", "g1+g2"]):
+        return "g2"
+    if g in (["var"], ["g1", "var"]):
+        return "g2<"
+    if g in (["var+1", "g2"], ["var+1", "g1+g2"]):
+        return "g2>"
+    return ",".join(map(str, g))
+
+
+def _lists_cy(f):
+    return [n for n, t in f.args if t.kind in ("buffer", "memview") and t.ndim == 1
+            and t.name == "NODE_t"]
+
+
+def _sites_by_quotient_role(body):
+    """{'numerator': site, 'denominator': site} of the (single) quotient whose
+    operands are counters incremented under adjacency tests."""
+    sites = {}
+    for s_ in count_sites(body):
+        if s_.tests:
+            sites.setdefault(s_.counter, []).append(s_)
+    out = {}
+    for num, den, st in quotients(body):
+        if num in sites and len(sites[num]) == 1:
+            out["numerator"] = sites[num][0]
+            if den in sites and len(sites[den]) == 1:
+                out["denominator"] = sites[den][0]
+    return out
 
 
 def x1(run: Run, prog: Program, cy: CyProgram):
@@ -77,41 +114,49 @@ def x1(run: Run, prog: Program, cy: CyProgram):
         pf = inw.methods.get(pname)
         if kf is None or pf is None:
             raise AnalysisError(f"sibling pair {kname}/{pname} vanished")
-        ksites = {s.counter: s for s in count_sites(kf.body, set(counters))}
-        psites = {s.counter: s for s in count_sites(py_stmts(pf.node.body),
-                                                    set(counters.values()))}
-        for kc, pc in counters.items():
-            inst = f"{kname}~{pname}:{kc}"
-            if kc not in ksites or pc not in psites:
+        pbody = py_stmts(pf.node.body)
+        ksites = _sites_by_quotient_role(kf.body)
+        psites = _sites_by_quotient_role(pbody)
+        kbinds = {n: v[1] for n, v in kf.locals.items() if v[1] is not None}
+        klists = _lists_cy(kf)
+        plists = pf.params[1:3]
+        want = ["numerator"] + (["denominator"] if len(counters) > 1 else [])
+        for role in want:
+            kc = role
+            inst = f"{kname}~{pname}:{role}"
+            if role not in ksites or role not in psites:
                 run.oblige("X1", inst, False)
-                run.add("X1", f"{kname}/{pname}/{kc}/missing", kf.where,
-                        f"counter `{kc}`/`{pc}` not found in both siblings "
-                        f"{kname} / {pname}")
+                run.add("X1", f"{kname}/{pname}/{role}/missing", kf.where,
+                        f"the counter forming the {role} of the result was not found "
+                        f"in both siblings {kname} / {pname}")
                 continue
-            a, b = _canon(ksites[kc]), _canon(psites[pc])
-            da = [_domain_class(d, "cy") for d in a["domains"]]
-            db = [_domain_class(d, "py") for d in b["domains"]]
+            a, b = _canon(ksites[kc]), _canon(psites[kc])
+            kb = dict(kbinds)
+            kb.update(ksites[kc].bindings)
+            da = [_domain_class(d, ksites[kc], kb, klists) for d in a["domains"]]
+            db = [_domain_class(d, psites[kc], psites[kc].bindings, plists)
+                  for d in b["domains"]]
             ok = a["pairs"] == b["pairs"] and da == db
             run.oblige("X1", inst, ok, sample={
                 "compiled": {"where": f"{kf.module.relpath}:{ksites[kc].line}",
                              "pairs": a["pairs"], "domains": da, "roles": a["roles"]},
-                "sparse": {"where": f"{pf.module.relpath}:{psites[pc].line}",
+                "sparse": {"where": f"{pf.module.relpath}:{psites[kc].line}",
                            "pairs": b["pairs"], "domains": db, "roles": b["roles"]}})
             if not ok:
                 what = (f"tested link pairs {a['pairs']} vs {b['pairs']}"
                         if a["pairs"] != b["pairs"] else f"loop domains {da} vs {db}")
-                run.add("X1", f"{kname}/{pname}/{kc}",
+                run.add("X1", f"{kname}/{pname}/{role}",
                         f"{kf.module.relpath}:{ksites[kc].line}",
                         f"compiled {kname} and its `_sparse` sibling {pf.qualname} count "
-                        f"`{kc}` under different conditions: {what} (roles ranked by "
+                        f"the {role} under different conditions: {what} (roles ranked by "
                         f"loop nesting: 0 = node of group 1, 1/2 = nodes of group 2)")
             # completeness of the triangle motif: 3 roles -> 3 pairs
-            if kc in ("triangles", "counter"):
-                for nm, c, fn, st in ((kname, a, kf, ksites[kc]), (pname, b, pf, psites[pc])):
+            if role == "numerator":
+                for nm, c, fn, st in ((kname, a, kf, ksites[kc]), (pname, b, pf, psites[kc])):
                     full = len(c["roles"]) == 3 and c["pairs"] == [(0, 1), (0, 2), (1, 2)]
-                    run.oblige("X1", f"{nm}:{kc}:triangle", full)
+                    run.oblige("X1", f"{nm}:{role}:triangle", full)
                     if not full:
-                        run.add("X1", f"{nm}/{kc}/triangle",
+                        run.add("X1", f"{nm}/{role}/triangle",
                                 f"{fn.module.relpath}:{st.line}",
                                 f"{nm} counts a triangle without testing all three "
                                 f"links (tested rank pairs {c['pairs']})")
@@ -229,7 +274,11 @@ def x2(run: Run, prog: Program):
                     run.add("X2", f"{f.qualname}/{nm}", f"{f.module.relpath}:{st.lineno}",
                             f"{f.qualname}: `{nm}` is computed with node lists {got}, "
                             f"its suffix asks for {want}")
-    run.floor("X2 role-carrying locals", n, 25)
+    # X2 reads a naming convention (…i/…j, …1/…2 partners); where the code does
+    # not follow it the rule has nothing to decide - that is not an error
+    if n == 0:
+        run.unknowns.append("X2: no role-suffixed partner locals found; role agreement "
+                            "not decided")
 
 
 def x6(run: Run, prog: Program):
